@@ -96,4 +96,42 @@ theorem foldl_filter_range (n : ℕ) (keep : ℕ → Bool) (F : ℕ → K) :
     congr 1
     by_cases h : keep n <;> simp [h]
 
+theorem trace_eq (d : ℕ) (Q : ℕ → ℕ → K) : trace d Q = ∑ x ∈ range d, Q x x := by
+  simp [trace, sumRange_eq]
+
+theorem trace_add (d : ℕ) (A B : ℕ → ℕ → K) :
+    trace d (fun x y => A x y + B x y) = trace d A + trace d B := by
+  simp [trace_eq, Finset.sum_add_distrib]
+
+/-- trace commutes with the neighbour accumulation loop of `spatial_average` -/
+theorem trace_foldl (d : ℕ) (Q : ℕ → ℕ → ℕ → K) (l : List ℕ) (A : ℕ → ℕ → K) :
+    trace d (fun x y => l.foldl (fun acc j => acc + Q j x y) (A x y))
+      = l.foldl (fun acc j => acc + trace d (Q j)) (trace d A) := by
+  induction l generalizing A with
+  | nil => rfl
+  | cons a t ih =>
+    simp only [List.foldl_cons]
+    rw [ih (fun x y => A x y + Q a x y), trace_add]
+
+/-- λ is an eigenvalue of the 2×2 matrix `Q` (with a non-zero eigenvector) -/
+def IsEig2 (Q : ℕ → ℕ → K) (lam : K) : Prop :=
+  ∃ v0 v1 : K, (v0 ≠ 0 ∨ v1 ≠ 0) ∧
+    Q 0 0 * v0 + Q 0 1 * v1 = lam * v0 ∧ Q 1 0 * v0 + Q 1 1 * v1 = lam * v1
+
+/-- 3×3 determinant -/
+def det3 (S : ℕ → ℕ → K) : K :=
+  S 0 0 * (S 1 1 * S 2 2 - S 1 2 * S 2 1) - S 0 1 * (S 1 0 * S 2 2 - S 1 2 * S 2 0)
+    + S 0 2 * (S 1 0 * S 2 1 - S 1 1 * S 2 0)
+
+/-- contract of the eigen-solver on a 3×3 matrix: `l 0, l 1, l 2` are the roots of the characteristic
+polynomial (Vieta relations; `(tr² − tr S²)/2` is the sum of the principal 2×2 minors) -/
+def IsSpectrum3 (S : ℕ → ℕ → K) (l : ℕ → K) : Prop :=
+  l 0 + l 1 + l 2 = trace 3 S ∧
+  l 0 * l 1 + l 0 * l 2 + l 1 * l 2 = (trace 3 S ^ 2 - traceSq 3 S) / 2 ∧
+  l 0 * l 1 * l 2 = det3 S
+
+/-- contract of the eigen-solver on a 2×2 matrix -/
+def IsSpectrum2 (S : ℕ → ℕ → K) (l : ℕ → K) : Prop :=
+  l 0 + l 1 = trace 2 S ∧ l 0 * l 1 = S 0 0 * S 1 1 - S 0 1 * S 1 0
+
 end Pms.LocalOrder
